@@ -206,3 +206,56 @@ def ct_mutants(x, y, hsh, c):
     if xb[0] == 0:
         out.append(("x-negative", enc_seq(enc_tlv(2, xb[1:]), yi, hi, ci)))
     return [(l, b) for (l, b) in out if b != good]
+
+
+# --- a few more builders (keys, SPKI, minimal certificates) -----------------------------------------
+
+OID_EC_PUBLIC_KEY = bytes.fromhex("2A8648CE3D0201")       # 1.2.840.10045.2.1
+OID_SM2 = bytes.fromhex("2A811CCF5501822D")               # 1.2.156.10197.1.301
+OID_SM2SIGN_SM3 = bytes.fromhex("2A811CCF55018375")       # 1.2.156.10197.1.501
+OID_CN = bytes.fromhex("550403")
+
+
+def enc_oid(raw):
+    return enc_tlv(0x06, raw)
+
+
+def enc_bits(b, unused=0):
+    return enc_tlv(0x03, bytes([unused]) + bytes(b))
+
+
+def enc_explicit(n, content):
+    return enc_tlv(0xA0 | n, content)
+
+
+def enc_utctime(s):
+    return enc_tlv(0x17, s.encode())
+
+
+def enc_name(cn):
+    return enc_seq(enc_tlv(0x31, enc_seq(enc_oid(OID_CN), enc_tlv(0x0C, cn.encode()))))
+
+
+def enc_spki(octets):
+    return enc_seq(enc_seq(enc_oid(OID_EC_PUBLIC_KEY), enc_oid(OID_SM2)), enc_bits(octets))
+
+
+def enc_ec_private_key(d_bytes, pub_octets):
+    return enc_seq(enc_uint(1), enc_octets(d_bytes), enc_explicit(0, enc_oid(OID_SM2)), enc_explicit(1, enc_bits(pub_octets)))
+
+
+def enc_pkcs8(d_bytes, pub_octets):
+    return enc_seq(enc_uint(0), enc_seq(enc_oid(OID_EC_PUBLIC_KEY), enc_oid(OID_SM2)), enc_octets(enc_ec_private_key(d_bytes, pub_octets)))
+
+
+def enc_min_cert(pub_octets, sig=b"\x30\x06\x02\x01\x01\x02\x01\x01"):
+    alg = enc_seq(enc_oid(OID_SM2SIGN_SM3))
+    tbs = enc_seq(enc_explicit(0, enc_uint(2)), enc_uint(0x1234), alg, enc_name("verif CA"),
+                  enc_seq(enc_utctime("240101000000Z"), enc_utctime("340101000000Z")), enc_name("verif EE"), enc_spki(pub_octets))
+    return enc_seq(tbs, alg, enc_bits(sig))
+
+
+def enc_min_req(pub_octets, sig=b"\x30\x06\x02\x01\x01\x02\x01\x01"):
+    alg = enc_seq(enc_oid(OID_SM2SIGN_SM3))
+    info = enc_seq(enc_uint(0), enc_name("verif REQ"), enc_spki(pub_octets), enc_tlv(0xA0, b""))
+    return enc_seq(info, alg, enc_bits(sig))
